@@ -11,7 +11,7 @@ class C07(WigBedProp):
     rule = ("bigWig inputs with small integer values; gaps shorter than, equal to and longer than the resolution, values spanning "
             "several records, values ending exactly on a record boundary, 1–6 chromosomes; manual zoom lists (sorted, distinct) "
             "and automatic levels (small initial size), single and two pass, items_per_slot ∈ {1,2,3,1024}; for every stored level "
-            "and chromosome the full-span zoom query plus boundary range queries. Non-trivial = at least one stored level with "
+            "and chromosome the full-span zoom query plus boundary range queries; plus zoom queries on files from the independent encoder of C10 (big-endian zoom records and indexes). Non-trivial = at least one stored level with "
             "two or more records on some chromosome")
 
     def gen_input(self, r):
@@ -43,12 +43,16 @@ class C07(WigBedProp):
             lines += bbgen.gen_queries(r, names, sizes, data, ["zoom"], 4, zoom_levels=nlev, ips=o["ips"])
             tags.add("zooms_" + ("auto" if o["zooms"] == "auto" else "manual"))
             out.append(CaseT(f"z{k}", "bed" if self.bed else "wig", [], lines, self.common_tags(o, names, data, tags)))
+        # zoom levels of files no bigtools writer produces (big-endian zoom records and indexes, other layouts)
+        out += self.foreign_cases(rng.fork("foreign"), tier, self.bed, 50, 300)
         return out
 
     def nontrivial(self, case, il):
         return any(l.startswith("A ") and l.count(" | ") >= 2 for l in il)
 
     def oracle(self, case, il):
+        if case.kind in ("readwig", "readbed"):
+            return self.foreign_oracle(case, il)
         return bbgen.basic_ok(il) or bbgen.oracle_zoom(case, il, self.bed)
 
 
